@@ -1558,11 +1558,10 @@ class Container:
         # (nothing in the denominator - a dry solid under default_solid_density: inf, per litre - is the pure solute)
         current_concentration = top / bottom if bottom else float('inf')
 
-        # the current concentration itself (as reported: rounded to the internal precision; as computed: to the last
-        # digits of a float and of the stored amounts) needs no solvent
+        # the current concentration itself (as reported: ten significant digits; as computed: to the last digits of a
+        # float and of the stored amounts) needs no solvent
         stored_decimals = 10 ** -config.internal_precision / self.contents[solute]  # (relative: what one stored digit is)
-        if bottom and abs(new_concentration - current_concentration) <= (
-                10 ** -config.internal_precision + (1e-9 + stored_decimals) * current_concentration):
+        if bottom and abs(new_concentration - current_concentration) <= (1e-9 + stored_decimals) * current_concentration:
             result = deepcopy(self)
             if name:
                 result.name = name
